@@ -91,6 +91,12 @@ def main(argv):
 
         idx = Index(repo)
         mod.run(ctx, idx)
+        # the array analyser's soft reservations: a construct it walked through with a model too coarse for it.  A violation found
+        # by a rule stands (and outranks this); otherwise the property is not decided.
+        from rules import arrayrules as _R
+        for _d, _r in (_R._cache.get(id(idx)) or {}).values():
+            if _r.soft_undecided:
+                raise AnalysisError(_r.soft_undecided[0])
         if tier == "thorough" and hasattr(mod, "thorough"):
             mod.thorough(ctx, idx)
         if tier == "thorough" and not os.environ.get("VERIF_NO_EVIDENCE"):
